@@ -108,7 +108,7 @@ G_CORE = [(RP.tok_exec, None), (RP.tok_leak, None), (RP.tok_resched, None), (RP.
           (RG.tok_guard, None), (RG.aq_drop, None), (RG.c15_reap, None), (RG.c15_refuse, None),
           (RL.try_rule, None), (RL.lo, None), (RL.bl, None),
           (RO.c03_dormant, None), (RO.c10_fetch, None), (RO.c10_thread, None), (RO.c10_spawn, None), (RO.c02_append, None), (RO.c06_drain, None),
-          (RO.c07_own, None), (RO.c07_signal, None), (RO.c08, None, ['result-after-scheduler', 'polls-with-callers-context', 'drop-order']),
+          (RO.c07_own, None), (RO.c07_signal, None), (RO.c08, None, ['result-after-scheduler', 'polls-with-callers-context', 'drop-order', 'unwind-keeps-the-slot']),
           (RO.free_delegates, None), (RO.rs_strength, None, ['SchedulerCore']), (RW.lw_owner, None), (RU.ua_leak, None), (RM.must, None), (RWP.wp, None), (RU.id_fixed, None), (RU.id_fresh_objects, None), (RU.id_same, None), (RU.id_confined, None), (RO.rs_cycle, None), (RW.lw_recheck, None),
           (RE.eo, None, ['^SchedulerCore::', '^<SchedulerCore::', '^JobQueue::', '^<JobQueue::', '^Scheduler::', '^<Scheduler::', '^<WakeQueue', '^<WakeThread', '^<SchedulerFuture', '^SchedulerFuture', '^<ActiveQueue', '^<UnsafeJob', '^FutureJob::', '^SchedulerThread::'])]
 G_ORDER = [(RO.c02_append, None), (RO.free_delegates, None, ['|delegates']), (RQ.qd_queue, None), (RQ.qd_single_store, None), (RP.tr_immediate, None), (RP.tr_sibling, None, ['sync']), (RP.tok_requeue, None),
